@@ -31,7 +31,9 @@ R15.5 Registry.Imports appends each map value once and sorts by Path(); Packages
 	ruleAddImport(c, r, "R15.4")
 	ruleImportsListing(c, r, "R15.5")
 	// a name handed out by the collision resolver is registered like an allocated one (C14 rule R14.5)
-	subRules(c, "R15.3", "resolver-registers", "every name the scope hands out must be recorded as taken: ", func(sub *Ctx) { ruleNameResolution(sub, loadRepo(sub, packages.LoadSyntax, "", "./template", "./internal"), "R14.5") })
+	subRules(c, "R15.3", "resolver-registers", "every name the scope hands out must be recorded as taken: ", func(sub *Ctx) {
+		ruleNameResolution(sub, loadRepo(sub, packages.LoadSyntax, "", "./template", "./internal"), "R14.5")
+	})
 }
 
 func ruleNameAllocators(c *Ctx, r *Repo, r1, r2, r3 string) {
